@@ -100,7 +100,7 @@ const L: &[(&str, &str)] = &[
 ("290", "20 M; 21 M; 25 M; 32{C,D} M; 52{A,D} O; 71B M; 72 O"),
 ("291", "20 M; 21 M; 32B M; 52{A,D} O; 57{A,B,D} O; 71B M; 72 O"),
 ("292", "20 M; 21 M; 11S M; 79 M"),
-("296", "20 M; 21 M; 76 M; 77A O; 11R O; 79 O"),
+("296", "20 M; 21 M; 76 M; 77A O; 11R O; 11S O; 79 O"),
 ("299", "20 M; 21 O; 79 M"),
 ("900", "20 M; 21 M; 25{-,P} M @25; 13D O; 32A M; 52{A,D} O; 72 O"),
 ("910", "20 M; 21 M; 25{-,P} M @25; 13D O; 32A M; 50{A,F,K} O; 52{A,D} O; 56{A,C,D} O; 72 O"),
